@@ -66,6 +66,7 @@ type Machine struct {
 	poolFree  map[*Value][]Value
 	dumpCache map[any]Value
 	onces     map[*Value]bool
+	ufApps    []ufApp
 	syncMaps  map[*Value]*Map
 
 	// per-worker statistics
@@ -88,6 +89,7 @@ func (m *Machine) resetPath(prefix []int) {
 	m.poolFree = map[*Value][]Value{}
 	m.dumpCache = nil
 	m.onces, m.syncMaps = nil, nil
+	m.ufApps = nil
 	m.globals = map[*ssa.Global]*Value{}
 	if m.ex.initState != nil {
 		// a private copy of the state the repository's package initialisers left behind
